@@ -67,7 +67,7 @@ type harnessRef struct {
 
 var shardsRe = regexp.MustCompile(`verif:shards=([0-9]+)`)
 
-var verifFuncRe = regexp.MustCompile(`^Verif(C[0-9]{2,3})`)
+var verifFuncRe = regexp.MustCompile(`^Verif(C[0-9]{2,3}|SELF)`)
 
 // findHarnesses scans /verif/harness for functions named Verif<id>…
 func findHarnesses(id string) ([]harnessRef, error) {
